@@ -528,6 +528,11 @@ func verifExpand(re *Regexp, rep string, m *Match, text []rune) string {
 				continue
 			}
 			name := string(r[i+2 : j])
+			if name == "" {
+				// ${} is not a reference: the text stays literal
+				out += "$"
+				continue
+			}
 			num, isNum := 0, name != ""
 			for _, d := range name {
 				if d < '0' || d > '9' {
